@@ -46,8 +46,8 @@ Lemma dict_msgpack_bytes_refuted :
     d_proto C = PMsgpack /\ d_soft C = true /\ d_leaf C = dict_leaf PMsgpack /\ dwf U = true
     /\ fdv C U fuel t true d = Ok v /\ ~ has_dtype U v t.
 Proof.
-  exists (mkdcfg PMsgpack true true (dict_leaf PMsgpack) no_reader no_reader no_decode), [], 1%nat, (DPrim DBytes), (JInt 3),
-         (NTuple (JInt 3)).
+  exists (mkdcfg PMsgpack true true (dict_leaf PMsgpack) no_reader no_reader no_decode), [], 1%nat, (DPrim DBytes), (JStr [97; 98; 99]),
+         (NTuple (JStr [97; 98; 99])).
   repeat split; try reflexivity. cbn. intro H. exact H.
 Qed.
 
